@@ -86,7 +86,7 @@ def replay(function, clause, model):
 def run_bounded(tier, seed):
     n, f, inp = PH.bounded(tier, seed)
     return {'tool': 'reference property store vs the real objects through handleMethodCallMessage (Get / Set / GetAll) and local assignment',
-            'bound': '%d generated declaration sets (1-3 interfaces over a two-level class hierarchy, the same property name on several interfaces, 11 signatures x 3 access modes x 3 notification modes) x 30 steps of assignment / Get / Set / GetAll with right and wrong names' % (2500 if tier == 'thorough' else 50),
+            'bound': '%d generated declaration sets (1-3 interfaces over a two-level class hierarchy, the same property name on several interfaces, 11 signatures x 3 access modes x 3 notification modes) x 30 steps of assignment / Get / Set / GetAll with right and wrong names' % (12000 if tier == 'thorough' else 50),
             'evaluations': n, 'failures': [] if not f else [{'function': 'txdbus.objects (properties)', 'clause': 'property-history', 'input': inp, 'detail': f}]}
 
 
